@@ -2,8 +2,9 @@
 //!
 //! input fields:  kind  outcome  backend  seed
 //!   kind     v4hdr | v4hdr-put | v4hdr-unsigned | v4pre | v4chunk | v4post | v2hdr | v2hdr-put | v2pre
+//!            | anon (no credentials at all)
 //!            | canary-log | canary-debug | canary-response      (the harness leaks on purpose: the scanner must see it)
-//!   outcome  ok | badsig | wrongsecret | unknownkey | tampered | expired | skewed | malformed1..3 | badchunk | truncated
+//!   outcome  ok | anonymous | badsig | wrongsecret | unknownkey | tampered | expired | skewed | malformed1..3 | badchunk | truncated
 //!   backend  rec (recording backend)  |  fs (recording backend in front of the real `s3s_fs::FileSystem`)
 //!            | rec+acc / fs+acc  (same, plus a recording `S3Access`)
 //!   seed     decimal; secret (40 chars), access keys, bucket, key and body derive from it
@@ -12,11 +13,13 @@
 //! (written from the AWS documents; HMAC/SHA primitives come from `s3s::verif_hooks::utils::crypto`), sends it
 //! through the real `S3Service::call` under a `tracing` subscriber that records every span and event field at
 //! TRACE, lets the backend `Debug`-format what it is handed, and searches every sink for both secrets in the
-//! forms raw / `AWS4`-prefixed / hex / base64 / percent-encoded, and for the hex of the four derived V4 keys.
+//! forms raw / `AWS4`-prefixed / hex / base64 / percent-encoded / `{:?}` of the bytes / either half, and for the four
+//! derived V4 keys (raw, hex, `{:?}` of the bytes).
 //!
 //! output fields:
 //!   status  code  accepted(0/1)  op  nsinks  nbytes  nrecords  hits  corrsig(0/1)
-//!   secret(hex) ak(hex) dbg_secretkey(hex) json_secretkey(hex) dbg_credentials(opt hex)
+//!   secret(hex) ak(hex) dbg_secretkey(hex) json_secretkey(hex) dbg_credentials(opt hex) nredacted
+//! nredacted = number of captured trace records that contain the `{:?}` rendering of a `SecretKey`
 //! hits = `-` or `,`-joined `sink/form` names (sink ∈ response, log, debug:S3Request, debug:Credentials, …)
 //! corrsig = the valid signature of a request that was REFUSED, which the client did NOT send, occurs in the captured
 //!           log (observation, not a failure of C16: the signature is not the key)
@@ -605,6 +608,10 @@ fn build(kind: &str, outcome: &str, rng: &mut Rng, keys: &Keys, bucket: &str, ke
             rb = rb.method("GET").uri(format!("http://localhost{sent_path}?{qs}")).header("host", "localhost");
             Built { req: rb.body(Body::empty()).unwrap(), correct_sig: correct, date8: String::new() }
         }
+        "anon" => {
+            rb = rb.method("GET").uri(format!("http://localhost{path}")).header("host", "localhost");
+            Built { req: rb.body(Body::empty()).unwrap(), correct_sig: None, date8: String::new() }
+        }
         other => panic!("unknown kind {other}"),
     }
 }
@@ -643,6 +650,9 @@ fn needles(keys: &Keys, date8: &str) -> Vec<(String, Vec<u8>)> {
         if pe != **s {
             v.push((format!("{who}-pct"), pe.into_bytes()));
         }
+        // `{:?}` of the bytes (`[68, 50, …]`), without the brackets so that a longer buffer holding them matches too
+        let dec = |b: &[u8]| b.iter().map(u8::to_string).collect::<Vec<_>>().join(", ");
+        v.push((format!("{who}-decimal"), dec(s.as_bytes()).into_bytes()));
         // a 20-character piece is already a disclosure
         v.push((format!("{who}-half"), s.as_bytes()[..20].to_vec()));
         v.push((format!("{who}-tail"), s.as_bytes()[20..].to_vec()));
@@ -650,6 +660,7 @@ fn needles(keys: &Keys, date8: &str) -> Vec<(String, Vec<u8>)> {
             for (i, k) in v4_keys(s, date8).iter().enumerate() {
                 v.push((format!("{who}-derived{}hex", i + 1), hex(k).into_bytes()));
                 v.push((format!("{who}-derived{}raw", i + 1), k.clone()));
+                v.push((format!("{who}-derived{}decimal", i + 1), dec(k).into_bytes()));
             }
         }
     }
@@ -809,6 +820,12 @@ fn evaluate(f: &[&str]) -> Vec<String> {
     let mut all: Vec<(String, Vec<u8>)> = vec![("response".to_owned(), resp_bytes.clone()), ("log".to_owned(), log_text.clone().into_bytes())];
     all.extend(sinks.lock().unwrap().drain(..));
 
+    if std::env::var_os("S3V_SECRETS_DUMP").is_some() {
+        // debugging aid for replays: everything that is searched, on stderr
+        for (sink, data) in &all {
+            eprintln!("==== {sink} ({} bytes)\n{}", data.len(), String::from_utf8_lossy(data));
+        }
+    }
     let nd = needles(&keys, &built.date8);
     let mut hits: Vec<String> = Vec::new();
     let mut nbytes = 0usize;
@@ -837,6 +854,8 @@ fn evaluate(f: &[&str]) -> Vec<String> {
     let dbg_sk = format!("{sk:?}");
     let json_sk = serde_json::to_string(&sk).unwrap_or_default();
     let dc = dbg_cred.lock().unwrap().clone();
+    // trace records that carry a (redacted) SecretKey: shows that the capture reaches the fields where a key would be
+    let nredacted = records().lock().unwrap().iter().filter(|r| find(r.as_bytes(), dbg_sk.as_bytes())).count();
     vec![
         status.to_string(),
         code,
@@ -852,6 +871,7 @@ fn evaluate(f: &[&str]) -> Vec<String> {
         hex(dbg_sk.as_bytes()),
         hex(json_sk.as_bytes()),
         opt_hex(dc.as_deref().map(str::as_bytes)),
+        nredacted.to_string(),
     ]
 }
 
@@ -879,6 +899,9 @@ fn generate(rng: &mut Rng, n: u64, tier: &str, emit: &mut dyn FnMut(Vec<String>)
     }
     let _ = tier;
     let reps = n.max(1);
+    for be in backends {
+        emit(vec!["anon".to_owned(), "anonymous".to_owned(), be.to_owned(), rng.next().to_string()]);
+    }
     for _ in 0..reps {
         for k in kinds {
             for o in outcomes_of(k) {
